@@ -227,7 +227,8 @@ def judge(ctx: core.Ctx, case: dict[str, Any]) -> None:
                 src = caller_src(variant, case["call"], variant.get("mid_loop", case["mid_loop"]))
             else:
                 partials = {"q": "inner"}
-                src = "{% macro 'm' p0, p1: 'D' %}" + OPEN + b + CLOSE + "{% endmacro %}" + caller_src(variant, case["call"], variant.get("mid_loop", case["mid_loop"]))
+                # parameters may be named like the caller's locals: one that the call leaves out is undefined in the body, it is not looked up outside
+                src = "{% macro 'm' " + case.get("macro_sig", "p0, p1: 'D'") + " %}" + OPEN + b + CLOSE + "{% endmacro %}" + caller_src(variant, case["call"], variant.get("mid_loop", case["mid_loop"]))
             env = drv.make_env({"extra": True}, loader=DictLoader(partials), base=MonEnv)
             HOOK.update(copies=0, leak=None)
             o = drv.parse_and_render(env, src, data, use_async=case.get("async", False) and vi % 2 == 1)
@@ -369,7 +370,7 @@ def gen_case(rng) -> dict[str, Any]:
     variants = [{"binds": [], "withs": [], "loopvar": "c", "mid_loop": False}] + [gen_variant(rng) for _ in range(5)]
     nw = rng.choice([0, 1, 1, 2])
     wrappers = [rng.choice(list(WRAP)) for _ in range(nw)]
-    return {"kind": kind, "call_kind": ck, "call": call, "body": gen_body(rng), "mid_loop": rng.random() < 0.5, "globals": globals_, "variants": variants,
+    return {"kind": kind, "call_kind": ck, "call": call, "macro_sig": rng.choice(["p0, p1: 'D'", "p0, p1: 'D', a, x", "p0, p1: 'D', n, b, c", "p0, p1: 'D', x"]), "body": gen_body(rng), "mid_loop": rng.random() < 0.5, "globals": globals_, "variants": variants,
             "probe_disabled": rng.random() < 0.25, "include_wrappers": wrappers,
             "include_call": rng.choice(["{% render 'p' %}", "{% render 'p' for items %}", "{% render 'mid' %}", "{% for i in (1..2) %}{% render 'p' with i as v %}{% endfor %}", "{% render 'pchild' %}"]),
             "include_mode": rng.choice(["strict", "strict", "lax", "warn"]), "async": rng.random() < 0.3}
